@@ -84,7 +84,11 @@ func blankPlus(in []byte) ([]byte, bool) {
 	changed := false
 	var quote byte
 	prev := byte(' ')
-	for i := 0; i < len(out); i++ {
+	i0 := 0
+	if len(out) >= 3 && out[0] == 0xef && out[1] == 0xbb && out[2] == 0xbf {
+		i0 = 3 // a byte order mark that is skipped leaves the next byte at a value position
+	}
+	for i := i0; i < len(out); i++ {
 		b := out[i]
 		if quote != 0 {
 			if b == '\\' {
@@ -93,6 +97,25 @@ func blankPlus(in []byte) ([]byte, bool) {
 				quote = 0
 				prev = b
 			}
+			continue
+		}
+		if b == '/' && i+1 < len(out) && (out[i+1] == '/' || out[i+1] == '*') {
+			// a comment ends a token and reads as white space (maps.go: after a * the next byte either
+			// ends the comment or is consumed with it, so **/ does not end one)
+			if out[i+1] == '/' {
+				for i += 2; i < len(out) && out[i] != '\n'; i++ {
+				}
+			} else {
+				for i += 2; i < len(out); i++ {
+					if out[i] == '*' {
+						i++
+						if i < len(out) && out[i] == '/' {
+							break
+						}
+					}
+				}
+			}
+			prev = ' '
 			continue
 		}
 		switch {
@@ -140,6 +163,14 @@ func suiteSenAgree(tier string, seed uint64) *Report {
 				add(v + s + w) // two documents
 			}
 		}
+	}
+	// a + straight after a byte order mark (both recorded behaviours meet here)
+	for _, v := range []string{"+\n\"é\"", "+1", "+ abc", "[+1]", "\"a\"+\"b\""} {
+		add("\xef\xbb\xbf" + v)
+	}
+	// a + after a comment
+	for _, v := range []string{"[a/**/+b]", "[1 /* x **/ +2]", "[\"a\"/**/+\"b\"]", "{a:1// c\n+b:2}", "a1/**/+x"} {
+		add(v)
 	}
 	for i := 0; i < 400; i++ {
 		n := 1 + r.Intn(5)
@@ -207,7 +238,7 @@ func suiteSenAgree(tier string, seed uint64) *Report {
 			ref := senParseOutcome(in, nil, false, multi)
 			rep.Evaluations++
 			rep.Count("sen-agree:" + ref[:1])
-			check := func(where, got string, rerun func(in []byte) string, firstShort bool, rerunWhole func(in []byte) string) {
+			check := func(where, got string, rerun func(in []byte) string, firstShort bool, rerunWhole func(in []byte) string, parserSame func() string) {
 				rep.Evaluations++
 				if got != ref {
 					class := ""
@@ -230,6 +261,13 @@ func suiteSenAgree(tier string, seed uint64) *Report {
 					if class == "" && firstShort && len(in) > 0 && in[0] == 0xef && rerunWhole != nil && rerunWhole(in) == ref {
 						class = "bom-short-first-read"
 					}
+					// the same reader behaviour seen through the tokenizer when its whole-read outcome is itself
+					// off (a + after the mark): exact when sen.Parser.ParseReader under the same reads gives the
+					// same outcome and ParseReader with one whole read gives the reference outcome
+					if class == "" && firstShort && len(in) > 0 && in[0] == 0xef && parserSame != nil && parserSame() == got &&
+						senParseOutcome(in, []int{}, true, multi) == ref {
+						class = "bom-short-first-read"
+					}
 					rep.Add(Disagreement{Case: hx(in), Where: where, Kind: "impl-law:sen-frontends", Impl: got, Spec: ref, Class: class,
 						Detail: fmt.Sprintf("%q multi=%v", s, multi)})
 				}
@@ -240,15 +278,16 @@ func suiteSenAgree(tier string, seed uint64) *Report {
 			}
 			multi := multi
 			check("sen.Tokenizer.Parse vs sen.Parser.Parse"+tag, senTokenOutcome(in, nil, false, multi),
-				func(d []byte) string { return senTokenOutcome(d, nil, false, multi) }, false, nil)
+				func(d []byte) string { return senTokenOutcome(d, nil, false, multi) }, false, nil, nil)
 			for _, c := range chunkingsFor(r, len(in), tier) {
 				c := c
 				check("sen.Parser.ParseReader"+tag+" "+chunkKind(c, len(in)), senParseOutcome(in, c, true, multi),
 					func(d []byte) string { return senParseOutcome(d, c, true, multi) }, len(c) > 0 && c[0] <= 3,
-					func(d []byte) string { return senParseOutcome(d, []int{}, true, multi) })
+					func(d []byte) string { return senParseOutcome(d, []int{}, true, multi) }, nil)
 				check("sen.Tokenizer.Load"+tag+" "+chunkKind(c, len(in)), senTokenOutcome(in, c, true, multi),
 					func(d []byte) string { return senTokenOutcome(d, c, true, multi) }, len(c) > 0 && c[0] <= 3,
-					func(d []byte) string { return senTokenOutcome(d, []int{}, true, multi) })
+					func(d []byte) string { return senTokenOutcome(d, []int{}, true, multi) },
+					func() string { return senParseOutcome(in, c, true, multi) })
 			}
 		}
 	}
